@@ -79,6 +79,18 @@ def gen_model(rng, i, route=None):
   else:
     m = spec.gen_eam_model(rng, kind, route, target=t, depth=1, grids={"nr": rng.choice([4, 6, 9]), "nrho": rng.choice([3, 5])}, nspecies=rng.choice([2, 3]),
                            underspecified=0.5)
+    # models of one pool should meet the same elements (with and without [Species] overrides), so that state
+    # leaking from one model into the next has something to change: map the labels onto a small alphabet
+    small = ["Al", "Cu", "Ni"]
+    ren = {s_: small[k % 3] for k, s_ in enumerate(m["all_species"])} if len(m["all_species"]) <= 3 else {}
+    if ren:
+      m = json.loads(json.dumps(m))
+      m["all_species"] = [ren[x] for x in m["all_species"]]
+      for key in ("pair", "embed", "density", "dipole", "quadrupole"):
+        for ent in m.get(key) or []:
+          for k in range(len(ent) - 1):
+            ent[k] = ren.get(ent[k], ent[k])
+      m["species"] = {ren.get(k, k): v for k, v in (m.get("species") or {}).items() if rng.random() < 0.6}
   return {"model": m, "route": route}
 
 
@@ -159,12 +171,31 @@ def run_history(case, ctx):
   except Exception as e:
     ctx.count("model_out_of_domain")
     return
+  import refmodel as R
   for mi, tg in enumerate(tags):
     for _ in range(6):
       if tg:
         evals.append([mi, rng.choice(tg), round(rng.uniform(0.2, 4.0), rng.choice([1, 2, 6]))])
+    # points ON and next to the breakpoints of the model's definitions (range starts, spline
+    # detach/attach, table ends): where a remembered piecewise selection would show
+    mdl = pool[mi]["model"]
+    RM = R.Model(mdl.get("forms"), mdl.get("tables"))
+    nodes = [ent[-1] for key in ("pair", "embed", "density", "dipole", "quadrupole") for ent in (mdl.get(key) or [])]
+    brk = sorted(set(b for nd in nodes for b in RM.breakpoints(nd) if 0.0 <= b <= 20.0))
+    for b in rng.sample(brk, min(3, len(brk))):
+      for tag in rng.sample(tg, min(2, len(tg))) if tg else []:
+        evals.append([mi, tag, b + rng.choice([0.3, 0.05])])
+        evals.append([mi, tag, b])
+        evals.append([mi, tag, max(0.0, b - 0.05)])
   try:
-    can = run_canon({"models": pool, "evals": evals})
+    # one fresh interpreter PER MODEL: the canon itself must be free of any history
+    can = {"bytes": [], "evals": [None] * len(evals)}
+    for mi, entry in enumerate(pool):
+      idx = [k for k, e in enumerate(evals) if e[0] == mi]
+      one = run_canon({"models": [entry], "evals": [[0, evals[k][1], evals[k][2]] for k in idx]})
+      can["bytes"].append(one["bytes"][0])
+      for k, v in zip(idx, one["evals"]):
+        can["evals"][k] = v
   except Exception as e:
     ctx.violation("HARNESS_ERROR", str(e), what="canon")
     return
